@@ -1,6 +1,6 @@
 (* C17 -- A leading backslash makes markup literal (partial).  Property theorems only. *)
-From Rimu Require Import Base Regex RegexParse Str Types Tables Guards State Inline Block
-  Frame FrameBlock FrameInst OptionsLemmas MiscLemmas MoreLemmas Plain MatchExact MacroSubst PlainDoc HeaderDoc.
+From Rimu Require Import Base Regex RegexSem RegexAnalysis RegexParse Str Types Tables Guards State Inline Block
+  Frame FrameBlock FrameInst OptionsLemmas MiscLemmas MoreLemmas Plain MatchExact MacroSubst PlainDoc HeaderDoc Emphasis EscapedQuote.
 
 (* an escaped replacement (link, image, e-mail, URL, tag, entity ...) is rendered as its own text,
    escaped, minus the backslash, as a finished fragment *)
@@ -49,4 +49,26 @@ Example C17_ex_escaped_header :
   | Ok (html, _) => html = $"<p>## not a header</p>"
   | _ => False
   end.
+Proof. vm_compute. reflexivity. Qed.
+
+(* AN ESCAPED QUOTE IS LITERAL: for every pre / body / post over the plain alphabet (body starting and ending with a non-space),
+   spans.render of  pre \*body* post  is the escaped text  pre *body* post  -- no <em>, and the backslash is gone.  On the way: the
+   quote pattern matches at the backslash (one derivation), the escaped-quote loop resumes after the opening star, what is left
+   holds a single star and has no derivation, none of the replacement patterns matches (the line-break pattern by inversion of
+   its derivations: the only backslash is followed by the star), and the unescape pass has exactly one match, the \* *)
+Theorem C17_escaped_emphasis_is_literal : forall n s pre body post,
+  defaults s -> over plain_alphabet pre -> body_ok body -> over plain_alphabet post ->
+  spans_render (S (S (S (S n)))) s (pre ++ 92 :: star :: body ++ star :: post) =
+  iret (escape (pre ++ star :: body ++ star :: post)).
+Proof. exact spans_render_escaped_em. Qed.
+Print Assumptions C17_escaped_emphasis_is_literal.
+
+Theorem C17_escaped_quote_match_unique : forall i p body post s', body_ok body -> over plain_alphabet post ->
+  (MatchExact.mx (Regex.re_ast qre) (RegexSem.mkSt i p (92 :: star :: body ++ star :: post) []) s' <-> s' = esc_final i body post).
+Proof. exact esc_derivation. Qed.
+Print Assumptions C17_escaped_quote_match_unique.
+
+Example C17_ex_escaped_emphasis :
+  match api_render 40 ($"Lead \*em ph* tail & <") (mkOpts PyNone PyNone PyNone true) S0 with
+  | Ok (html, _) => str_eqb html $"<p>Lead *em ph* tail &amp; &lt;</p>" | _ => false end = true.
 Proof. vm_compute. reflexivity. Qed.
